@@ -155,6 +155,8 @@ def _compare(ctx, case, what, src, other):
             known = "group-by-rebuild-block-sequence"
         elif not C06._diff(_norm_any(d1), _norm_any(d2)):
             known = "ios-slash0-copy"
+        elif case["kwargs"].get("group_by") and _only_block_sequence_differs(_norm_any(d1), _norm_any(d2)):
+            known = "group-by-rebuild-block-sequence"  # both known mechanisms at once (K4 on an ACL that also has an IOS /0 member)
         ctx.violation(case, f"{what} exports different data", {"line": l1, "difference": diff}, known=known)
     if hasattr(src, "__eq__") and type(src).__name__ not in ("Wildcard",) and not src == other:
         ctx.violation(case, f"{what} is not equal (==) to its source", {"line": l1})
@@ -170,6 +172,9 @@ MUTATIONS = {
     "Acl": ["items.append", "items.pop", "items.insert", "item.sequence", "item.line", "resequence", "port_nr", "protocol_nr",
             "name", "input.append", "output.append", "platform", "group", "ungroup", "indent", "inner.pop"],
 }
+
+
+DIAG = []
 
 
 def mutate(obj, kind: str, rng) -> bool:
@@ -271,6 +276,10 @@ def mutate(obj, kind: str, rng) -> bool:
             return False
     except (ValueError, TypeError, IndexError):
         return False
+    except RecursionError:
+        # resequence() on a container that holds an *empty* nested group recurses for ever (C10 excludes empty groups)
+        DIAG.append((cls, kind, [type(i).__name__ + ":" + str(len(getattr(i, "items", "x"))) for i in getattr(obj, "items", [])][:8]))
+        return False
     return True
 
 
@@ -320,6 +329,9 @@ def identity_check(ctx, case, obj, kind, rng) -> None:
             return
     except (ValueError, TypeError, AttributeError):
         ctx.count("transform_refused")
+        return
+    except RecursionError:
+        ctx.count("empty_group_recursion_not_judged")
         return
     ctx.count("identity_checks_judged")
     if _ident(obj) != before_self:
@@ -490,6 +502,9 @@ def run(ctx) -> None:
                    nontrivial=True, n=max(1, sum(ctx.counters.get(k, 0) for k in keys) - before),
                    sample=case if done % 200 == 1 else None)
     ctx.count("cases", done)
+    if DIAG:
+        ctx.count("empty_group_recursion_not_judged", len(DIAG))
+        ctx.notes.append("recursion diag: " + repr(DIAG[:3]))
 
 
 def replay(ctx, case: dict) -> None:
